@@ -1,6 +1,8 @@
 (* AssignProofs.v -- C06: py7zr's entry -> (folder, offset, size, CRC, id, kind) assignment
    (Assign.v, impl_plans) agrees with what the format defines (Spec.v, spec_plans) on every
-   structurally valid header that satisfies `nice`; each clause of `nice` is necessary. *)
+   structurally valid header that satisfies `nice`; each clause of `nice` is necessary.
+   The header may carry its SubStreamsInfo (embed, assign_conforms), omit it (embed_nosub,
+   assign_conforms_no_substreams) or have no MainStreamsInfo at all (embed_nostreams). *)
 From Coq Require Import ZifyBool.
 From P7 Require Import Prelude PyPrims Number Header Spec Assign.
 Open Scope Z_scope.
@@ -975,24 +977,158 @@ Theorem assign_kind_from_attribute_refuted :
    disagrees w_data_dirattr).
 Proof. vm_compute. repeat split; try reflexivity; eexists; split; reflexivity. Qed.
 
-(* (4) no SubStreamsInfo.  `embed` always produces one; on the header graph py7zr's own parser
-   builds for a legal header without it (one folder, one data entry "a" of 5 bytes: the format
-   says one sub-stream per folder) the assignment raises, whereas the specification reader
-   yields the member.  Header bytes:
+(* (4) no SubStreamsInfo.  `embed` always produces one; py7zr's own parser builds a graph WITHOUT one for a
+   legal header that omits the section (the format then says: one sub-stream per folder, its size and CRC are the
+   folder's).  Before the repair the assignment raised on such a graph as soon as an entry had data (`subinfo`
+   was None and was dereferenced); since the repair (_real_get_contents installs SubstreamsInfo.default(folders))
+   these headers conform: assign_conforms_no_substreams below.  The behaviour before the repair is kept as
+   `impl_plans_before_repair` for the regression example.  Header bytes of w_nosub_bytes:
      01 | 04 | 06 pos=0 n=1 09 5 00 | 07 0B 1 00 (1 coder: 01 00) 0C 5 00 | 00 | 05 1 (11 5 00 'a' 00 00) 00 | 00 *)
 Definition w_nosub_bytes : bytes :=
   [1; 4; 6; 0; 1; 9; 5; 0; 7; 11; 1; 0; 1; 1; 0; 12; 5; 0; 0; 5; 1; 17; 5; 0; 97; 0; 0; 0; 0; 0].
-Theorem assign_no_substreams_refuted :
-  (forall pk fs fl ef, existsb (fun e => negb (e_emptystream e)) fl = true ->
-     impl_plans (mkHeader (Some (mkStreams (Some pk) (Some fs) None)) (Some fl) ef) = Err EOther) /\
-  (exists h g, s_header 100 w_nosub_bytes = Ok h /\ nice h = true /\
-     map (fun p => (pl_kind p, pl_folder p, pl_offset p, pl_size p)) (spec_plans h) = [(0, 0, 0, 5)] /\
-     parse_header 100 w_nosub_bytes = Ok g /\ impl_plans g = Err EOther).
+
+(* the graph py7zr's parser builds for a specification header whose SubStreamsInfo is absent *)
+Definition embed_nosub (h : sheader) : header :=
+  mkHeader (Some (mkStreams (Some (embed_pack h)) (Some (map embed_folder (sh_folders h))) None))
+           (Some (sh_files h)) (sh_emptyfile h).
+(* what the specification reader (Spec.s_header, the `else` of its SubStreamsInfo step) yields for the three
+   sub-stream vectors when the section is absent *)
+Definition absent_sub (h : sheader) : Prop :=
+  sh_nums h = repeat 1 (length (sh_folders h)) /\
+  s_default_sizes (sh_nums h) (sh_folders h) = Ok (sh_sizes h) /\
+  sh_crcs h = map sf_crc (sh_folders h).
+(* py7zr takes a folder's size from the LAST unpack size, the format from the out-stream that is not bound:
+   they name the same value in every folder py7zr's decoder chain supports (coders listed last-applied first) *)
+Definition sf_last_is_main (f : sfolder) : bool :=
+  match sfolder_unpack_size f, py_index (sf_unpacksizes f) (-1) with
+  | Ok a, Ok b => a =? b
+  | _, _ => false
+  end.
+Definition sizes_from_last (h : sheader) : bool := forallb sf_last_is_main (sh_folders h).
+
+(* _real_get_contents as it was before the repair: no SubStreamsInfo and an entry with data -> AttributeError *)
+Definition impl_plans_before_repair (h : header) : res (list iplan) :=
+  match h_files h, h_streams h with
+  | Some files, Some st =>
+      match si_folders st, si_pack st, si_sub st with
+      | Some _, Some _, None =>
+          if existsb (fun e => negb (e_emptystream e)) files then Err EOther else impl_plans h
+      | _, _, _ => impl_plans h
+      end
+  | _, _ => impl_plans h
+  end.
+
+Lemma default_digests_embed : forall fs : list sfolder,
+  default_digests (repeat 1 (length (map embed_folder fs))) (map embed_folder fs) =
+  (map is_some (map sf_crc fs), map or0 (map sf_crc fs)).
 Proof.
-  split.
-  - intros pk fs fl ef H. unfold impl_plans. cbn [h_files h_streams si_folders si_pack si_sub]. rewrite H. reflexivity.
-  - vm_compute. do 2 eexists. repeat split; reflexivity.
+  induction fs as [|f r IH]; [reflexivity|].
+  cbn [map length repeat default_digests]. rewrite IH.
+  cbn [embed_folder f_digestdefined f_crc Z.eqb Pos.eqb andb].
+  destruct (sf_crc f) as [c|]; reflexivity.
 Qed.
+
+Lemma last_sizes_embed : forall (fs : list sfolder) sizes,
+  forallb sf_last_is_main fs = true ->
+  s_default_sizes (repeat 1 (length fs)) fs = Ok sizes ->
+  last_sizes (map embed_folder fs) (repeat 1 (length fs)) = Ok sizes.
+Proof.
+  induction fs as [|f r IH]; intros sizes HL HS.
+  - simpl in HS. injection HS as <-. reflexivity.
+  - cbn [forallb] in HL. apply andb_prop in HL. destruct HL as [Hf Hr].
+    cbn [length repeat s_default_sizes] in HS.
+    destruct (s_default_sizes (repeat 1 (length r)) r) as [rest|e] eqn:Er; [|discriminate HS].
+    cbn [bind Z.eqb Pos.eqb] in HS.
+    unfold sf_last_is_main in Hf.
+    destruct (sfolder_unpack_size f) as [a|e] eqn:Ea; [|discriminate Hf].
+    destruct (py_index (sf_unpacksizes f) (-1)) as [b|e] eqn:Eb; [|discriminate Hf].
+    cbn [bind] in HS. injection HS as <-.
+    cbn [map length repeat last_sizes Z.leb Z.compare embed_folder f_unpacksizes].
+    rewrite Eb. cbn [bind]. rewrite (IH rest Hr eq_refl). cbn [bind Z.to_nat].
+    change (Pos.to_nat 1) with 1%nat. cbn [repeat app]. f_equal. f_equal. lia.
+Qed.
+
+(* on such a header the repaired assignment does exactly what it does on the graph WITH the section *)
+Lemma impl_plans_nosub_embed : forall h, absent_sub h -> sizes_from_last h = true ->
+  impl_plans (embed_nosub h) = impl_plans (embed h).
+Proof.
+  intros h [Hn [Hs Hc]] HL. unfold sizes_from_last in HL.
+  unfold impl_plans, embed_nosub, embed.
+  cbn [h_files h_streams si_folders si_pack si_sub embed_sub s_sizes s_nums Header.s_digestsdefined Header.s_digests].
+  unfold default_sub. rewrite default_digests_embed.
+  cbn [s_sizes s_nums Header.s_digestsdefined Header.s_digests].
+  rewrite map_length. rewrite Hn in Hs. rewrite (last_sizes_embed _ _ HL Hs).
+  rewrite <- Hc, <- Hn. reflexivity.
+Qed.
+
+Theorem assign_conforms_no_substreams : forall h, nice h = true -> absent_sub h -> sizes_from_last h = true ->
+  exists ps, impl_plans (embed_nosub h) = Ok ps /\ plans_agree 0 (spec_plans h) ps = true.
+Proof.
+  intros h Hnice Habs HL. rewrite (impl_plans_nosub_embed h Habs HL). exact (assign_conforms h Hnice).
+Qed.
+
+(* the graph _real_get_contents leaves behind carries the installed object, and reading it again changes nothing *)
+Lemma impl_plans_install_sub h : impl_plans (install_sub h) = impl_plans h.
+Proof.
+  destruct h as [[[pk fo sb]|] [fl|] ef]; try reflexivity.
+  destruct fo as [fs|], pk as [p|], sb as [s|]; reflexivity.
+Qed.
+Lemma install_sub_idem h : install_sub (install_sub h) = install_sub h.
+Proof.
+  destruct h as [[[pk fo sb]|] [fl|] ef]; try reflexivity.
+  destruct fo as [fs|], pk as [p|], sb as [s|]; reflexivity.
+Qed.
+Lemma install_sub_embed_nosub h :
+  install_sub (embed_nosub h) =
+  mkHeader (Some (mkStreams (Some (embed_pack h)) (Some (map embed_folder (sh_folders h)))
+                            (Some (mkSub (repeat 1 (length (sh_folders h))) None
+                                         (map is_some (map sf_crc (sh_folders h))) (map or0 (map sf_crc (sh_folders h)))))))
+           (Some (sh_files h)) (sh_emptyfile h).
+Proof.
+  unfold install_sub, embed_nosub. cbn [h_files h_streams si_folders si_pack si_sub h_emptyfiles].
+  unfold default_sub. rewrite default_digests_embed, map_length. reflexivity.
+Qed.
+
+(* the header bytes above, read by both parsers: the hypotheses hold of what the specification reader yields, py7zr's
+   parser yields embed_nosub of it, and the member is assigned as the format says -- where it raised before *)
+Theorem assign_no_substreams_conforms :
+  exists h, s_header 100 w_nosub_bytes = Ok h /\ nice h = true /\ absent_sub h /\ sizes_from_last h = true /\
+    parse_header 100 w_nosub_bytes = Ok (embed_nosub h) /\
+    map (fun p => (pl_kind p, pl_folder p, pl_offset p, pl_size p)) (spec_plans h) = [(0, 0, 0, 5)] /\
+    (exists ps, impl_plans (embed_nosub h) = Ok ps /\ map iplan_view ps = [(0, 0, 0, 0, 5)] /\
+                plans_agree 0 (spec_plans h) ps = true) /\
+    impl_plans_before_repair (embed_nosub h) = Err EOther.
+Proof.
+  vm_compute. eexists. split; [reflexivity|]. repeat split; try reflexivity.
+  eexists. repeat split; reflexivity.
+Qed.
+Theorem assign_before_repair_refuted :
+  forall pk fs fl ef, existsb (fun e => negb (e_emptystream e)) fl = true ->
+    impl_plans_before_repair (mkHeader (Some (mkStreams (Some pk) (Some fs) None)) (Some fl) ef) = Err EOther.
+Proof.
+  intros pk fs fl ef H. unfold impl_plans_before_repair. cbn [h_files h_streams si_folders si_pack si_sub].
+  rewrite H. reflexivity.
+Qed.
+
+(* three folders (sizes 3, 0, 4; two-coder chain in the last; folder CRCs defined, undefined, defined), empty-stream
+   entries before, between and after the members, PackPos 7 *)
+Definition w_nosub3 : sheader :=
+  mkSHeader 7 [3; 0; 9] [None; None; Some 5]
+            [mkSFolder [w_coder] [] [0] [3] (Some 11); mkSFolder [w_coder] [] [0] [0] None;
+             mkSFolder [w_coder; w_coder] [(1, 0)] [0] [9; 4] (Some 13)]
+            [1; 1; 1] [3; 0; 4] [Some 11; None; Some 13]
+            [w_dir 100 (Some (Some 16)); w_data 97 32; w_dir 101 None; w_data 98 32; w_dir 102 (Some (Some 16));
+             w_data 99 32; w_dir 103 (Some (Some 16))]
+            [false; true; false; false].
+Example assign_no_substreams_example :
+  nice w_nosub3 = true /\ absent_sub w_nosub3 /\ sizes_from_last w_nosub3 = true /\
+  exists ps, impl_plans (embed_nosub w_nosub3) = Ok ps /\
+    map (fun p => (ip_id p, ip_kind p, ip_folder p, ip_offset p, ip_size p, ip_crc p)) ps =
+      [(0, 2, -1, 0, 0, None); (1, 0, 0, 0, 3, Some 11); (2, 1, -1, 0, 0, None); (3, 0, 1, 0, 0, None);
+       (4, 2, -1, 0, 0, None); (5, 0, 2, 0, 4, Some 13); (6, 2, -1, 0, 0, None)] /\
+    plans_agree 0 (spec_plans w_nosub3) ps = true /\
+    impl_plans_before_repair (embed_nosub w_nosub3) = Err EOther.
+Proof. vm_compute. repeat split; try reflexivity. eexists. repeat split; reflexivity. Qed.
 
 (* ------------------------------------------------------------------ *)
 (* D. non-vacuity                                                      *)
